@@ -238,4 +238,37 @@ Proof.
   - apply Bc. exact Hclean.
   - intros [T1 T2]. apply C; assumption.
 Qed.
+
+Theorem join_all bc sc :
+  sc_cfg sc = CfgFinishOnly -> accepts sc (bc_name bc) ->
+  exists (f : gsysT) (n : nat), joined_state bc sc f /\ every_interleaving bc sc (join_init bc) f n.
+Proof.
+  intros Hc Ha. destruct (join_reference bc sc Hc Ha) as [f [R [J [Q C]]]].
+  exists f, (length (join_sched (compress_on (sc_threshold sc)))). split; [exact J|].
+  exact (reference_all bc sc _ _ f R Q C).
+Qed.
+Theorem stock_all bc sc :
+  sc_cfg sc = CfgStock -> accepts sc (bc_name bc) ->
+  exists (f : gsysT) (n : nat), stock_state bc sc f /\ every_interleaving bc sc (join_init bc) f n.
+Proof.
+  intros Hc Ha. destruct (stock_reference bc sc Hc Ha) as [f [R [J [Q C]]]].
+  exists f, (length (stock_sched (compress_on (sc_threshold sc)))). split; [exact J|].
+  exact (reference_all bc sc _ _ f R Q C).
+Qed.
+Theorem refuse_all bc sc reason :
+  refuses sc (bc_name bc) reason ->
+  exists (f : gsysT) (n : nat), refused_state bc sc reason f /\ every_interleaving bc sc (join_init bc) f n.
+Proof.
+  intros Hr. destruct (refuse_reference bc sc reason Hr) as [f [R [J [Q C]]]].
+  exists f, (length (refuse_sched (compress_on (sc_threshold sc)))). split; [exact J|].
+  exact (reference_all bc sc _ _ f R Q C).
+Qed.
+Theorem status_all bc sc json :
+  sc_status sc bot_ProtocolVersion = Some json ->
+  exists (f : gsysT) (n : nat), status_state bc json f /\ every_interleaving bc sc (ping_init bc) f n.
+Proof.
+  intros Hs. destruct (ping_reference bc sc json Hs) as [f [R [J [Q C]]]].
+  exists f, (length ping_sched). split; [exact J|].
+  exact (reference_all bc sc _ _ f R Q C).
+Qed.
 End Gate.
